@@ -347,50 +347,56 @@ func fatalMachinery(prop, tier string, seed int, start time.Time, msg string) {
 }
 
 // solveMany: one pool for the obligations of many functions.
+// Stage 1: every obligation as a whole, short timeout. Stage 2: the undecided
+// ones (at most 16; more than that is not a load problem) leaf by leaf with the
+// full timeout, a few at a time, so that a proof that is merely slow under
+// load does not become an alarm.
 func solveMany(cxOf map[*Obligation]*Ctx, obls []*Obligation, opt solveOpts) {
-	byCx := map[*Ctx][]*Obligation{}
-	for _, o := range obls {
-		byCx[cxOf[o]] = append(byCx[cxOf[o]], o)
+	t1 := opt.timeout / 2
+	if t1 > 10*time.Second {
+		t1 = 10 * time.Second
 	}
-	sem := make(chan struct{}, opt.par)
-	done := make(chan struct{})
-	n := 0
-	for cx, os_ := range byCx {
-		for _, o := range os_ {
-			n++
-			go func(cx *Ctx, o *Obligation) {
+	if opt.cross {
+		t1 = opt.timeout / 3
+	}
+	run := func(list []*Obligation, par int, o2 solveOpts) {
+		sem := make(chan struct{}, par)
+		done := make(chan struct{})
+		for _, o := range list {
+			go func(o *Obligation) {
 				sem <- struct{}{}
-				solveAll(cx, []*Obligation{o}, solveOpts{timeout: opt.timeout, seed: opt.seed, par: 1, cross: opt.cross, workDir: opt.workDir})
+				solveAll(cxOf[o], []*Obligation{o}, o2)
 				<-sem
 				done <- struct{}{}
-			}(cx, o)
+			}(o)
+		}
+		for range list {
+			<-done
 		}
 	}
-	for i := 0; i < n; i++ {
-		<-done
-	}
-	// second chance for undecided obligations: alone, with a longer timeout
-	// (a proof that is merely slow under load must not become an alarm)
+	run(obls, opt.par, solveOpts{timeout: t1, seed: opt.seed, par: 1, cross: opt.cross, workDir: opt.workDir})
 	var again []*Obligation
 	for _, o := range obls {
 		if !o.ExpectSat && (o.Status == "timeout" || o.Status == "unknown") {
 			again = append(again, o)
 		}
 	}
-	if len(again) > 0 && len(again) <= 24 {
-		sem2 := make(chan struct{}, 3)
-		done2 := make(chan struct{})
-		for _, o := range again {
-			go func(o *Obligation) {
-				sem2 <- struct{}{}
-				solveAll(cxOf[o], []*Obligation{o}, solveOpts{timeout: 3 * opt.timeout, seed: opt.seed + 1, par: 1, cross: false, workDir: opt.workDir})
-				<-sem2
-				done2 <- struct{}{}
-			}(o)
+	if len(again) > 16 {
+		again = again[:16]
+	}
+	if len(again) > 0 {
+		run(again, 4, solveOpts{timeout: opt.timeout, seed: opt.seed + 1, par: 1, cross: false, workDir: opt.workDir, split: true})
+	}
+	// Stage 3: a last, unhurried attempt for the few that remain (one at a time,
+	// other seed, three times the timeout): slow-but-true proofs must not alarm.
+	var last []*Obligation
+	for _, o := range again {
+		if o.Status == "timeout" || o.Status == "unknown" {
+			last = append(last, o)
 		}
-		for range again {
-			<-done2
-		}
+	}
+	if len(last) > 0 && len(last) <= 4 {
+		run(last, 1, solveOpts{timeout: 3 * opt.timeout, seed: opt.seed + 7, par: 1, cross: false, workDir: opt.workDir, split: true})
 	}
 }
 
